@@ -251,6 +251,40 @@ fn run_ops_on(first: OpenRes, dir: &str, ops: &[String], out: &mut Vec<String>) 
     };
     for op in ops {
         let t: Vec<&str> = op.split_whitespace().collect();
+        if t[0] == "X" {
+            st.rl.wait_worker_idle();
+            drop(st);
+            match open_store(&t[1..], dir) {
+                OpenRes::Ok(s) => {
+                    st = s;
+                    out.push("opened".to_string());
+                    continue;
+                }
+                OpenRes::Err(k) => {
+                    out.push(format!("openerr {}", kind_str(k)));
+                    return;
+                }
+                OpenRes::Panic => {
+                    out.push("panic".to_string());
+                    return;
+                }
+            }
+        }
+        let (res, stop) = exec_op(&mut st, dir, &t);
+        out.push(res);
+        if stop {
+            // a panicking operation may leave the store half-updated: the case ends here
+            std::mem::forget(st);
+            return;
+        }
+    }
+    st.rl.wait_worker_idle();
+}
+
+/// Execute one caller operation on the store; returns the canonical result and
+/// whether the case must stop (panic).
+pub fn exec_op(st: &mut Store, dir: &str, t: &[&str]) -> (String, bool) {
+    use raft_log::api::raft_log_writer::RaftLogWriter;
         let mut stop = false;
         let res: String = match t[0] {
             "V" | "A" | "T" | "P" | "C" | "U" | "S" => {
@@ -351,33 +385,7 @@ fn run_ops_on(first: OpenRes, dir: &str, ops: &[String], out: &mut Vec<String>) 
                 st.rl.wait_worker_idle();
                 disk_str(dir)
             }
-            "X" => {
-                st.rl.wait_worker_idle();
-                drop(st);
-                // the worker thread is detached: give it the chance to see the closed channel
-                match open_store(&t[1..], dir) {
-                    OpenRes::Ok(s) => {
-                        st = s;
-                        "opened".to_string()
-                    }
-                    OpenRes::Err(k) => {
-                        out.push(format!("openerr {}", kind_str(k)));
-                        return;
-                    }
-                    OpenRes::Panic => {
-                        out.push("panic".to_string());
-                        return;
-                    }
-                }
-            }
             _ => "badop".to_string(),
         };
-        out.push(res);
-        if stop {
-            // a panicking operation may leave the store half-updated: the case ends here
-            std::mem::forget(st);
-            return;
-        }
-    }
-    st.rl.wait_worker_idle();
+        (res, stop)
 }
